@@ -112,25 +112,29 @@ LEMMA ClearInd == ASSUME IndInv, ClearCache PROVE IndInv'
     BY DEF ClearCache
   <1> QED BY <1>1, <1>2 DEF ClearCache
 
+LEMMA PCFacts == /\ {"mkdir", "pyx_open", "pyx_write", "cythonize", "build", "publish", "cleanup", "import2"} \subseteq PCs
+                 /\ {"none", "dir", "pyx_partial", "pyx", "c", "so"} \subseteq Privs
+  BY DEF PCs, Privs
+
 LEMMA WorkInd == ASSUME IndInv, NEW p \in Procs, Work(p) PROVE IndInv'
   <1>1. CASE Import1(p)
     BY <1>1, NotLegacy, ImportInd DEF Import1
   <1>2. CASE Import2(p)
     BY <1>2, ImportInd DEF Import2
   <1>3. CASE MkDir(p)
-    BY <1>3, StepInd DEF MkDir, PCs, Privs
+    BY <1>3, StepInd, PCFacts DEF MkDir
   <1>4. CASE PyxOpen(p)
-    BY <1>4, StepInd DEF PyxOpen, PCs, Privs
+    BY <1>4, StepInd, PCFacts DEF PyxOpen
   <1>5. CASE PyxWrite(p)
-    BY <1>5, StepInd DEF PyxWrite, PCs, Privs
+    BY <1>5, StepInd, PCFacts DEF PyxWrite
   <1>6. CASE Cythonize(p)
-    BY <1>6, StepInd DEF Cythonize, PCs, Privs
+    BY <1>6, StepInd, PCFacts DEF Cythonize
   <1>7. CASE Build(p)
-    BY <1>7, StepInd DEF Build, PCs, Privs
+    BY <1>7, StepInd, PCFacts DEF Build
   <1>8. CASE Publish(p)
     BY <1>8, PublishInd
   <1>9. CASE Cleanup(p)
-    BY <1>9, StepInd DEF Cleanup, PCs, Privs
+    BY <1>9, StepInd, PCFacts DEF Cleanup
   <1> QED BY <1>1, <1>2, <1>3, <1>4, <1>5, <1>6, <1>7, <1>8, <1>9, NotLegacy DEF Work, Fixed
 
 LEMMA NextInd == IndInv /\ [Next]_vars => IndInv'
